@@ -190,8 +190,12 @@ class NameSanitizer:
 
     @staticmethod
     def normalize_tag_key(tag: str) -> str:
-        """Normalize a tag for case-insensitive uniqueness (e.g., datasources)."""
-        return re.sub(r"[\W_]+", "", tag).lower()
+        """Normalize a tag for case-insensitive uniqueness (e.g., datasources).
+
+        Only the characters that survive in module and class names (ASCII letters and digits) take part:
+        two tags that get the same module name must never land in different groups.
+        """
+        return re.sub(r"[^0-9a-zA-Z]+", "", tag).lower()
 
     @staticmethod
     def sanitize_filename(name: str, suffix: str = ".py") -> str:
